@@ -282,9 +282,16 @@ def tla_case(g, ov=None):
 # ---------------------------------------------------------------------------
 # abstract -> formula text
 # ---------------------------------------------------------------------------
+# set by wbrun.write_xlsx while it writes files whose cross-book references use the
+# numeric form [n]Sheet!A1: {host book: {other book: index in the host's link table}}
+LINKS = None
+
+
 def ref_text(host, b, s, ref, qualify):
     """Reference text as written in a formula of cell `host` (book, sheet)."""
     hb, hs = host
+    if LINKS and b != hb and s.isascii():
+        return '[%d]%s!%s' % (LINKS[hb][b], s, ref)
     if qualify == 'full' or b != hb:
         return "'[%s]%s'!%s" % (b, s, ref)
     if s != hs or qualify == 'sheet':
@@ -399,7 +406,11 @@ def is_acyclic(g):
 
 
 def make(seed, **kw):
-    """Deterministic acyclic workbook for a seed."""
+    """Deterministic acyclic workbook for a seed.  case_titles=True: one workbook in
+    four has sheet titles whose case mappings are not mirror images (LAYOUT_CASE)."""
+    kw = dict(kw)
+    if kw.pop('case_titles', False) and seed % 4 == 3 and 'sheets' not in kw:
+        kw['sheets'] = LAYOUT_CASE
     k = 0
     while True:
         g = Gen(random.Random(seed * 1000003 + k), **kw).build()
